@@ -627,7 +627,7 @@ func c04AskerDeath(p *Program, r *Report) {
 		o := p.origins(c.Args[1])
 		e := p.origins(c.Args[2])
 		desc = strings.Join(o, "|") + " ; " + strings.Join(e, "|")
-		if !allContain(o, "Context.ref<-") || !allContain(e, "global:ErrorActorDeaded") {
+		if !allContain(o, lc.pat(lc.RefF)) || !allContain(e, "global:ErrorActorDeaded") {
 			ok = false
 		}
 	}
@@ -717,6 +717,32 @@ func c04Address(p *Program, r *Report) {
 			}
 		}
 	}
+	// the agent ref's OWN reference field: the one the constructor fills with the result of Child(marker+uuid) (by role)
+	var ownF *types.Var
+	for _, b := range newAgent.Blocks {
+		for _, in := range b.Instrs {
+			st, ok := in.(*ssa.Store)
+			if !ok {
+				continue
+			}
+			fl, _ := fieldAddr(st.Addr)
+			if fl == nil {
+				continue
+			}
+			v := strip(st.Val)
+			if ex, isEx := v.(*ssa.Extract); isEx {
+				v = ex.Tuple
+			}
+			if c, isC := v.(*ssa.Call); isC && c.Call.StaticCallee() != nil && c.Call.StaticCallee().Name() == "Child" {
+				ownF = fl
+			}
+		}
+	}
+	if ownF == nil {
+		r.Unresolved("own-reference field of the agent ref (filled from Child(...) in its constructor)")
+		return
+	}
+	ownPat := "GetPath<-field:" + ownerName(ownF) + "." + ownF.Name() + "<-param:"
 	r.Check(fresh, "reply address is fresh", newAgent.Pos(), "the agent ref's path is the asker's path extended by marker + uuid.NewString(): a reply can never reach the future of a different request")
 	// ask: sender of the request envelope is agent.ref; registry key is agent.ref.GetPath()
 	g := p.ig(f.Ask)
@@ -730,7 +756,7 @@ func c04Address(p *Program, r *Report) {
 	for _, in := range g.Nodes {
 		if c := callOf(in); c != nil && c.StaticCallee() != nil && c.StaticCallee().Name() == "NewEnvelop" && app != nil {
 			fl, base := fieldLoad(strip(c.Args[1]))
-			if fl != nil && fl.Name() == "ref" && (strip(base) == strip(app.Call.Args[1]) || sameCell(base, app.Call.Args[1])) {
+			if fl == ownF && (strip(base) == strip(app.Call.Args[1]) || sameCell(base, app.Call.Args[1])) {
 				okS = true
 			}
 		}
@@ -742,7 +768,7 @@ func c04Address(p *Program, r *Report) {
 			if c := callOf(in); c != nil && calleeQual(c) == "(sync.Map).Store" {
 				o := p.origins(c.Args[1])
 				v := strip(c.Args[2])
-				okK = allContain(o, "GetPath<-field:AgentRef.ref<-param:") && v == ssa.Value(f.Append.Params[2])
+				okK = allContain(o, ownPat) && v == ssa.Value(f.Append.Params[2])
 			}
 		}
 	}
@@ -752,7 +778,7 @@ func c04Address(p *Program, r *Report) {
 	for _, b := range f.Remove.Blocks {
 		for _, in := range b.Instrs {
 			if c := callOf(in); c != nil && calleeQual(c) == "(sync.Map).Delete" {
-				okR = allContain(p.origins(c.Args[1]), "GetPath<-field:AgentRef.ref<-param:")
+				okR = allContain(p.origins(c.Args[1]), ownPat)
 			}
 		}
 	}
